@@ -591,7 +591,9 @@ func (db *DB) Create(o Object, s Schema) (err error) {
 
 	switch {
 	case err == nil:
-		s.initialize(db, o)
+		if err = s.initialize(db, o); err != nil {
+			return
+		}
 
 		// pending writes must reach the disk before async writes are
 		// switched off, nothing would flush or read them afterwards
